@@ -423,7 +423,9 @@ func checkBinding(r *vp.InstResult, where string, fd *descriptorpb.FileDescripto
 			if !o.perNode && st.perNode {
 				addViol(r, "C17/per-node-arg", key, fmt.Sprintf("%s: %s passes a per-node function without per_node_arg", where, goName), nil)
 			}
-			if (o.quorumcall && o.async) || o.correctable {
+			if out := strings.TrimPrefix(m.GetOutputType(), "."); ((o.quorumcall && o.async) || o.correctable) &&
+				(o.custom != "" || strings.HasPrefix(out, fd.GetPackage()+".") || out == "google.protobuf.Empty") {
+				// (for other imported types the Go package name is not derivable from the proto name)
 				// the typed Get of the future / correctable the stub returns yields the method's own result type
 				want := o.custom
 				if want == "" {
